@@ -138,7 +138,8 @@ def finish(prop, tier, seed, t0, work, mc, scenarios, traces, results, violation
             tool_errors.append("trace not fully consumed: %s" % json.dumps(r["stuck"])[:300])
         for v in r["viol"]:
             ev = V.event_at(r["trace"], v.get("line", -1))
-            if prop in v.get("props", []):
+            v["props"] = sorted({q for pp in v.get("props", []) for q in pp.split(",")})
+            if prop in v["props"]:
                 k = V.matches_known(prop, v, ev, known)
                 if k:
                     known_lines.append("KNOWN-FINDING: property=%s %s (%s, run %s)" % (prop, k["what"], k["id"], v.get("run")))
